@@ -16,6 +16,7 @@ import errno
 import hashlib
 import socket as _real_socket
 import struct
+import weakref
 
 GUID = b"258EAFA5-E914-47DA-95CA-C5AB0DC85B11"
 
@@ -68,6 +69,18 @@ def parse_client_frames(buf):
         buf = buf[p + n:]
 
 
+class SockRec:
+    """what the harness remembers about a transport without keeping it alive."""
+
+    def __init__(self, idx):
+        self.idx = idx
+        self.dialled = False
+        self.connected = False
+        self.closed = False
+        self.dropped = False
+        self.frames_written = []
+
+
 class AppSocket:
     """one transport.  script: list of (rel_ticks, item) with item = bytes | "eof" | "reset";
     times are relative to the moment the connection is established and non-decreasing."""
@@ -80,6 +93,7 @@ class AppSocket:
         self.ssl_style = ssl_style
         self.accept_mangle = accept_mangle
         self.t0 = None
+        self.rec = SockRec(idx)
         self.connected = False
         self.dialled = False
         self.closed = False
@@ -91,7 +105,6 @@ class AppSocket:
         self.hs_in = b""
         self.hs_done = False
         self.out = b""
-        self.frames_written = []
         self.reads = []              # (time, nbytes) of every successful recv after the handshake
         self.select_blocked = []
 
@@ -100,6 +113,7 @@ class AppSocket:
         self.t0 = self.s.now
         self.connected = True
         self.dialled = True
+        self.rec.connected = self.rec.dialled = True
         self.inq = [(self.t0 + dt, it) for dt, it in self.script]
         self.s.emit("dial", self.idx)
 
@@ -195,7 +209,7 @@ class AppSocket:
         self.out += data
         frames, self.out = parse_client_frames(self.out)
         for fin, op, payload, masked in frames:
-            self.frames_written.append((self.s.now, fin, op, payload, masked))
+            self.rec.frames_written.append((self.s.now, fin, op, payload, masked))
             self.s.emit("wrote", op, payload, fin, masked)
         return len(data)
 
@@ -227,6 +241,7 @@ class AppSocket:
     def close(self):
         if not self.closed:
             self.closed = True
+            self.rec.closed = True
             if self.dialled:
                 self.s.emit("sockClosed", self.idx)
 
@@ -249,7 +264,8 @@ class Net:
         self.outcomes = list(outcomes)
         self.tail = tail
         self.ssl_style = ssl_style
-        self.socks = []
+        self.socks = []              # weak references: the transports must be collectable
+        self.recs = []
         self.attempts = []           # (time, outcome kind)
         # names the code under test reads from the module
         for k in ("AF_INET", "AF_INET6", "SOCK_STREAM", "SOL_TCP", "SOL_SOCKET", "IPPROTO_TCP", "SHUT_RDWR",
@@ -260,7 +276,7 @@ class Net:
         return [(_real_socket.AF_INET, _real_socket.SOCK_STREAM, 6, "", ("10.0.0.1", port))]
 
     def socket(self, family=None, typ=None, proto=None):
-        i = len(self.socks)
+        i = len(self.recs)
         oc = self.outcomes[i] if i < len(self.outcomes) else self.tail
         net = self
 
@@ -268,7 +284,7 @@ class Net:
             def connect(self_, addr):
                 net.attempts.append((net.s.now, oc[0]))
                 if oc[0] == "refused":
-                    self_.dialled = True
+                    self_.dialled = self_.rec.dialled = True
                     net.s.emit("dial", self_.idx)
                     net.s.emit("dialFailed", self_.idx)
                     raise ConnectionRefusedError(errno.ECONNREFUSED, "Connection refused")
@@ -280,8 +296,16 @@ class Net:
             sk = _S(self.s, i, oc[1], ssl_style=self.ssl_style)
         else:
             sk = _S(self.s, i, (), ssl_style=self.ssl_style)
-        self.socks.append(sk)
+        self.recs.append(sk.rec)
+        self.socks.append(weakref.ref(sk))
+        rec, sched = sk.rec, self.s
+
+        def dropped():
+            if rec.connected and not rec.closed and not rec.dropped:
+                rec.dropped = True
+                sched.emit("sockDropped", rec.idx)
+        weakref.finalize(sk, dropped)
         return sk
 
     def live(self):
-        return [k.idx for k in self.socks if k.connected and not k.closed]
+        return [r.idx for r in self.recs if r.connected and not r.closed and not r.dropped]
